@@ -132,7 +132,7 @@ class DateTime(datetime.datetime, Date):
         if tz is not None:
             tz = pendulum._safe_timezone(tz, dt=dt)
 
-        return cls.create(
+        instance = cls.create(
             dt.year,
             dt.month,
             dt.day,
@@ -143,6 +143,25 @@ class DateTime(datetime.datetime, Date):
             tz=tz,
             fold=dt.fold,
         )
+
+        if dt.tzinfo is not None and instance.utcoffset() != dt.utcoffset():
+            # A tzinfo that does not implement PEP 495 (pytz) tells which
+            # occurrence of a repeated time is meant through its offset only.
+            other = cls.create(
+                dt.year,
+                dt.month,
+                dt.day,
+                dt.hour,
+                dt.minute,
+                dt.second,
+                dt.microsecond,
+                tz=tz,
+                fold=1 - dt.fold,
+            )
+            if other.utcoffset() == dt.utcoffset():
+                return other
+
+        return instance
 
     @overload
     @classmethod
